@@ -3,7 +3,7 @@
 //! Network-tap oracle (it sees every byte on the wire):
 //!  (a) per client address, until the server has validated it (a Handshake packet of that
 //!      client was authenticated by the server, or an Initial carrying a token arrived after a
-//!      Retry): at the start of every server datagram, bytes already sent < 3 x bytes that
+//!      Retry, or a PATH_RESPONSE echoing a PATH_CHALLENGE the server sent there): at the start of every server datagram, bytes already sent < 3 x bytes that
 //!      were delivered to the server from that address (the tap counts every delivered
 //!      datagram, so it is lenient, never stricter than what the server can have credited);
 //!  (b) replies to datagrams that belong to no connection: stateless reset strictly smaller
@@ -44,6 +44,10 @@ pub struct C11 {
     /// probes by source port (each probe uses its own port)
     probes: HashMap<u16, Probe>,
     cid_len: usize,
+    /// PATH_CHALLENGE data the server put into (conn, pn), not yet seen on the wire
+    chal_pending: HashMap<(u64, u64), Vec<[u8; 8]>>,
+    /// PATH_CHALLENGE data -> client port the server sent it to
+    chal_port: HashMap<[u8; 8], u16>,
 }
 
 use crate::app::PROBER_BASE;
@@ -55,6 +59,8 @@ impl C11 {
             conn_port: HashMap::new(),
             probes: HashMap::new(),
             cid_len: p.server.cid_len,
+            chal_pending: HashMap::new(),
+            chal_port: HashMap::new(),
         }
     }
 }
@@ -69,7 +75,34 @@ impl Monitor for C11 {
         }
     }
 
+    fn on_tx(&mut self, _cx: &mut Ctx, p: &Pkt) {
+        if p.ep != SERVER || p.space != Space::App {
+            return;
+        }
+        for f in &p.frames {
+            if let vq_wire::Frame::PathChallenge { data } = f {
+                self.chal_pending.entry((p.conn, p.pn)).or_default().push(*data);
+            }
+        }
+    }
+
     fn on_rx(&mut self, cx: &mut Ctx, p: &Pkt) {
+        // path validation (RFC 9000 8.2.3): the server authenticated a PATH_RESPONSE echoing
+        // the data of a PATH_CHALLENGE it sent to that address
+        if p.ep == SERVER && p.space == Space::App {
+            for f in &p.frames {
+                if let vq_wire::Frame::PathResponse { data } = f {
+                    if let Some(port) = self.chal_port.get(data) {
+                        let a = self.addrs.entry(*port).or_default();
+                        if !a.validated {
+                            a.validated = true;
+                            cx.summary.count("c11.addresses_validated_by_path_response", 1);
+                            cx.summary.max("c11.tightest_ratio_permille", a.tightest as i64);
+                        }
+                    }
+                }
+            }
+        }
         // the server authenticated a Handshake packet from the client: address validated
         if p.ep == SERVER && p.space == Space::Handshake {
             if let Some(port) = self.conn_port.get(&p.conn) {
@@ -202,6 +235,15 @@ impl Monitor for C11 {
                     // replies that open a connection (long) fall under (a) below as well
                     if kind != "long" && kind != "retry" {
                         return;
+                    }
+                }
+                for (conn, space, pn) in &w.pkts {
+                    if *space == Space::App {
+                        if let Some(ds) = self.chal_pending.remove(&(*conn, *pn)) {
+                            for d in ds {
+                                self.chal_port.insert(d, w.dst_port);
+                            }
+                        }
                     }
                 }
                 // ---- (a) 3x rule
